@@ -677,7 +677,17 @@ func c07verifyShape(p *Prog, r *Report) {
 		}
 		r.Check(okLoop, rule, fmt.Sprintf("Event.Verify:itx-loop#%d", i), p.ipos(c), fnName(ev), "all internal transactions verified; only false-returning early exits", detail)
 	}
-	// signature check provenance, for both Verify functions
+	verifyProvenance(p, r, rule, []string{"Event", "InternalTransaction", "Block"})
+}
+
+// verifyProvenance: X.Verify returns true only through keys.Verify over the body hash, with the
+// key and the signature taken from the value being verified (no shortcut that skips the ECDSA check).
+func verifyProvenance(p *Prog, r *Report, rule string, which []string) {
+	ev := p.Func(HG, "Event", "Verify")
+	want := map[string]bool{}
+	for _, w := range which {
+		want[w] = true
+	}
 	for _, spec := range []struct {
 		fn              *ssa.Function
 		name, keyField  string
@@ -691,6 +701,9 @@ func c07verifyShape(p *Prog, r *Report) {
 		{p.Func(HG, "InternalTransaction", "Verify"), "InternalTransaction.Verify", "Peer", "Body", "Signature", named(HG + ".InternalTransactionBody.Hash"), named(PEER + ".Peer.PubKeyBytes"), "Peer"},
 		{p.Func(HG, "Block", "Verify"), "Block.Verify", "Validator", "Body", "Signature", named(HG + ".BlockBody.Hash"), nil, ""},
 	} {
+		if !want[strings.Split(spec.name, ".")[0]] {
+			continue
+		}
 		if spec.fn == nil {
 			r.Anchor(rule, spec.name)
 			continue
